@@ -530,7 +530,11 @@ class Interp(ExprMixin, StmtMixin):
         make_args(interp, path) -> (args, kwargs[, self_obj])
         Returns list of (path, Outcome, extra) where extra carries obligations recorded on that path.
         """
-        mod, chain, node = self.src.find_def(qualname)
+        try:
+            mod, chain, node = self.src.find_def(qualname)
+        except KeyError:
+            from .core import MissingFunction
+            raise MissingFunction(qualname) from None
         results = []
 
         def one(path):
